@@ -852,7 +852,14 @@ def bisect_find_sha(
       unpack_name: Callback to retrieve SHA by index
     Returns: Index of the SHA, or None if it wasn't found
     """
-    assert start <= end
+    # Same argument checks as the Rust implementation: the bounds are
+    # (non-negative, index-sized) positions in a pack index.
+    if start < 0:
+        raise ValueError("start must not be negative")
+    if start > end:
+        raise ValueError("start > end")
+    if end > sys.maxsize:
+        raise OverflowError("end does not fit in an index-sized integer")
     while start <= end:
         i = (start + end) // 2
         file_sha = unpack_name(i)
